@@ -375,15 +375,23 @@ type c16Open struct {
 
 func c16Session(t *testing.T, out *verifh.Out, r *verifh.Rand, steps int) {
 	var rpm, pp, dd, mc int
+	useDefaults := false
 	// pressure: a tight dial-data limit with room for concurrent requests, few peers, requests that
 	// mostly need dial data, many of them overlapping and stalled
 	pressure := r.Chance(1, 3)
 	if pressure {
-		rpm, pp, dd, mc = 20+r.Intn(40), 10+r.Intn(20), r.Intn(3), 1+r.Intn(3)
+		rpm, pp, dd, mc = 30+r.Intn(40), 10+r.Intn(20), r.Intn(3), 4+r.Intn(3)
+		if r.Bool() {
+			mc = 1 + r.Intn(3)
+			if dd == mc {
+				dd = (dd + 1) % 3
+			}
+		}
 		out.Cover("session.config.tight_dial_data_limit")
 	} else if r.Chance(1, 4) {
 		s := defaultSettings()
 		rpm, pp, dd, mc = s.serverRPM, s.serverPerPeerRPM, s.serverDialDataRPM, s.maxConcurrentRequestsPerPeer
+		useDefaults = true
 	} else {
 		rpm, pp, dd, mc = 2+r.Intn(12), 1+r.Intn(6), r.Intn(5), 1+r.Intn(3)
 	}
@@ -411,10 +419,17 @@ func c16Session(t *testing.T, out *verifh.Out, r *verifh.Rand, steps int) {
 		t.Fatal(err)
 	}
 	dialer := bhost.NewBlankHost(sw)
-	settings := defaultSettings()
-	settings.serverRPM, settings.serverPerPeerRPM, settings.serverDialDataRPM, settings.maxConcurrentRequestsPerPeer = rpm, pp, dd, mc
-	settings.amplificatonAttackPreventionDialWait = time.Millisecond
-	srv := newServer(dialer, settings)
+	// the server is built through the public path; the case header carries the values passed to
+	// the options (or the documented defaults when no rate option is given)
+	opts := []AutoNATOption{withAmplificationAttackPreventionDialWait(time.Millisecond)}
+	if !useDefaults {
+		opts = append(opts, WithServerRateLimit(rpm, pp, dd, mc))
+	}
+	an, err := New(dialer, opts...)
+	if err != nil {
+		t.Fatal(err)
+	}
+	srv := an.srv
 	defer func() {
 		srv.limiter.Close()
 		dialer.Close()
